@@ -18,8 +18,8 @@ enum { SC_DEFAULT, SC_PIPES_INPUT, SC_ERR2OUT, SC_DISCARD, SC_PATH, SC_FILE, SC_
 static const char *const scn_names[] = { "default", "pipes+input", "stderr-to-stdout", "discard", "path", "file", "handle", "parent",
                                          "workdir+relative", "env-extend", "nonblocking", "fork", "stderr-to-parent-stdout-by-handle", "parent,stdin+stderr-closed" };
 
-enum { H_DESTROY, H_WAIT, H_ROUNDTRIP, H_DRAIN, H_TERMKILL, H_KILLWAIT, H_RUNEX, NHIST };
-static const char *const hist_names[] = { "destroy", "wait", "roundtrip", "drain", "term-wait-kill", "kill-wait", "run_ex" };
+enum { H_DESTROY, H_WAIT, H_ROUNDTRIP, H_DRAIN, H_TERMKILL, H_KILLWAIT, H_RUNEX, H_LATEPOLL, NHIST };
+static const char *const hist_names[] = { "destroy", "wait", "roundtrip", "drain", "term-wait-kill", "kill-wait", "run_ex", "deadline-passes,poll,drain,kill,wait" };
 
 enum { N_MISSING, N_DIRECTORY, N_NOEXEC, N_TOOLONG, N_WD_MISSING, N_WD_FILE, N_PATH_NODIR, N_PATH_ISDIR, N_INPUT_BIG, N_BARE_MISSING, N_OWN_HANDLE_CLOSED, N_OWN_FILE_CLOSED, NNAT };
 static const char *const nat_names[] = { "missing-program", "directory-as-program", "no-x-bit", "path-too-long", "workdir-missing",
@@ -243,7 +243,8 @@ static void scn_build(int s, int hist, struct scn *c)
   snprintf(p, room, "X%d", c->exit_code);
   /* histories that do not communicate get a child that does not wait for input */
   if (hist == H_DESTROY || hist == H_WAIT) snprintf(c->script, sizeof c->script, "X%d", c->exit_code);
-  if (hist == H_TERMKILL || hist == H_KILLWAIT) c->script[0] = 0; /* dies on the signal */
+  if (hist == H_TERMKILL || hist == H_KILLWAIT || hist == H_LATEPOLL) c->script[0] = 0; /* dies on the signal */
+  if (hist == H_LATEPOLL) c->o.deadline = 2;
 }
 
 static void scn_post_path_identity(struct scn *c)
@@ -589,6 +590,22 @@ after_ident:;
                        hx_errname(t2), vk_count_calls(k1api, C_KILL) + vk_count_calls(t2api, C_KILL));
         else vk_hit(CL_AFTER_REAP_NOOP);
       }
+      break;
+    }
+    case H_LATEPOLL: {
+      /* the caller was busy past the deadline: polls and a drain that find it already expired, then the child is put down */
+      vk_advance(5);
+      reproc_event_source src = { p, REPROC_EVENT_OUT | REPROC_EVENT_EXIT, 0 };
+      hx_poll(&src, 1, 0);
+      hx_poll(&src, 1, REPROC_INFINITE);
+      int cnt[3] = { 0, 0, 0 };
+      reproc_sink s1 = { count_sink, cnt }, s2 = { count_sink, cnt };
+      hx_last_api = vk_api_begin("drain()");
+      int dr = reproc_drain(p, s1, s2);
+      vk_api_end(dr);
+      vk_obs("late drain=%s", hx_errname(dr));
+      hx_kill(p);
+      status = hx_wait(p, REPROC_INFINITE);
       break;
     }
     case H_KILLWAIT: {
